@@ -644,6 +644,11 @@ def byzantine(plugin, f, good, start, end, name, as_chunk=False):
         if kind == "wrong_dtype_chunk":
             w = np.zeros(len(arr), dtype=[("time", np.int64), ("endtime", np.int64), ("oops", np.float32)])
             w["time"], w["endtime"] = arr["time"], arr["endtime"]
+            if variant == "assigned":
+                # a chunk made the regular way, whose rows are then replaced through its public data attribute
+                c = plugin.chunk(start=start, end=end, data=arr, data_type=nm)
+                c.data = w
+                return c
             # 'consistent': a chunk built by hand that is consistent in itself (declares the foreign dtype)
             return strax.Chunk(start=start, end=end, data=w, data_type=nm, data_kind=plugin.data_kind_for(nm),
                                dtype=w.dtype if variant == "consistent" else plugin.dtype_for(nm),
@@ -663,6 +668,8 @@ def byzantine(plugin, f, good, start, end, name, as_chunk=False):
             c = plugin.chunk(start=start, end=end, data=arr, data_type=nm)
             c.data_type = other
             return c
+        if kind in ("gap", "overlap") and variant == "empty":
+            arr = arr[:0]       # the offending chunk carries no rows at all
         if kind == "gap":
             if end <= start or (len(arr) and arr["time"].min() <= start):
                 plugin.H_LOG.append(("__noeffect__", nm, kind))     # cannot shift this chunk's start
@@ -672,6 +679,8 @@ def byzantine(plugin, f, good, start, end, name, as_chunk=False):
             if start <= 0:
                 plugin.H_LOG.append(("__noeffect__", nm, kind))
                 return plugin.chunk(start=start, end=end, data=arr, data_type=nm)
+            if variant == "empty":
+                return plugin.chunk(start=start - 1, end=end, data=arr, data_type=nm)
             # an overlapping chunk that re-delivers something: one extra row inside the overlap
             extra = make_rows(nm, [start - 1], [start], [-1])
             return plugin.chunk(start=start - 1, end=end, data=np.concatenate([extra, arr]), data_type=nm)
